@@ -27,6 +27,7 @@ EXPLANATION = (
   ' (PAIR-close) every feed() of cue text to the HTMLParser-based text parser is followed by close() on every path, so the tail that HTMLParser holds back is delivered;'
   ' (LOOP-break) no loop over the items of a collection is left by a branch that does nothing but `break` on a test about the item (end-of-input sentinels, flags set in the loop body and searches whose variable is read afterwards excepted): an item that is to be skipped does not end the processing of the items after it;'
   ' (FIN-regex) the SubRip timing-line pattern and the colour patterns accept / reject the probe values written from the format description;'
+  + common.SHARED_CLAUSES['color'] + common.SHARED_CLAUSES['text']
 )
 RULE_TEXT = "EXA/DEF/NUL: per call site / function; FMT: per sample timing line; TAB-tags: per writer tag literal"
 UNDECIDED = ["tag scoping for nested/adjacent tags", "line splitting and blank-line handling", "counter tolerance"]
@@ -145,6 +146,9 @@ def check_tags(ctx):
           accepted |= {e.value for e in c.elts if isinstance(e, ast.Constant)}
         elif isinstance(c, ast.Constant):
           accepted.add(c.value)
+  if not interpreted and not all(t_ in accepted for t_ in tags.values()):
+    ctx.undecide("TAB-tags", f"{h.qualname}: neither in the interpreted subset nor a chain of comparisons with tag-name literals")
+    return
   for name, tag in sorted(tags.items()):
     ctx.check(tag in accepted, "TAB-tags", f"ttconv.srt.style:{name}|{tag}", ctx.where(h.module, h.node),
               f"<{tag}> has a branch in _TextParser.handle_starttag",
@@ -209,6 +213,7 @@ def check_time_expressions(ctx):
 
 
 def run(ctx):
+  common.check_shared_helpers(ctx, color=True, text=True)
   ix = ctx.ix
   fs = common.funcs(ctx, ["ttconv.srt.reader"])
   n = exa.check_exactness(ctx, fs, rule="EXA", exempt=common.EXA_EXEMPT, trunc_scope=common.time_trunc_scope(ctx))
